@@ -183,7 +183,7 @@ def destructure_subst(
             raise RuntimeError(f'unexpected binding element: {binding!r}')
 
 
-def _binding_names(target: Id | TupleBinding) -> list[NamedId]:
+def binding_names(target: Id | TupleBinding) -> list[NamedId]:
     """The named identifiers *target* binds; underscores contribute none."""
     match target:
         case NamedId():
@@ -191,7 +191,7 @@ def _binding_names(target: Id | TupleBinding) -> list[NamedId]:
         case TupleBinding():
             out: list[NamedId] = []
             for elt in target.elts:
-                out.extend(_binding_names(elt))
+                out.extend(binding_names(elt))
             return out
         case _:
             return []
@@ -216,12 +216,19 @@ class SubstNames(DefaultTransformVisitor):
 
     def _visit_list_comp(self, e: ListComp, ctx: Any):
         # Disable any substitution this comp's targets shadow, then restore.
+        # Stage by stage: an iterable is evaluated before its own target (and
+        # the ones after it) are bound, so it still sees the outer names.
         shadowed: dict[NamedId, Expr] = {}
-        for target in e.targets:
-            for name in _binding_names(target):
-                if name in self._subst:
-                    shadowed[name] = self._subst.pop(name)
         try:
-            return super()._visit_list_comp(e, ctx)
+            targets: list[Id | TupleBinding] = []
+            iterables: list[Expr] = []
+            for target, iterable in zip(e.targets, e.iterables):
+                iterables.append(self._visit_expr(iterable, ctx))
+                for name in binding_names(target):
+                    if name in self._subst:
+                        shadowed[name] = self._subst.pop(name)
+                targets.append(self._visit_binding(target, ctx))
+            elt = self._visit_expr(e.elt, ctx)
+            return ListComp(targets, iterables, elt, e.loc)
         finally:
             self._subst.update(shadowed)
